@@ -403,7 +403,7 @@ struct Obs {
     view: Value,
 }
 
-fn observe(u: &Universe, state: &Value, watches: &Value, seen: &Value, depths: (u32, u32, u32), done: bool, init: &Value) -> Obs {
+fn observe(u: &Universe, state: &Value, watches: &Value, seen: &Value, depths: (u32, u32, u32), done: bool, cs: (u32, u32, u32, u32), init: &Value) -> Obs {
     let nm = Namer { u };
     // the registered funding data must never change
     for k in ["funding_txids", "funding_vouts", "funding_inputs"] {
@@ -455,10 +455,14 @@ fn observe(u: &Universe, state: &Value, watches: &Value, seen: &Value, depths: (
         coq_on(&state["our_output_swept_height"]),
         state["saw_block"].as_bool().unwrap()
     );
-    let coq = format!("(Some ({}, {}, {}, ({}, {}, {}), {}))", st, cl(&w), cl(&sn), depths.0, depths.1, depths.2, done);
+    let coq = format!(
+        "(Some ({}, {}, {}, ({}, {}, {}), {}, ({}, {}, {}, {})))",
+        st, cl(&w), cl(&sn), depths.0, depths.1, depths.2, done, cs.0, cs.1, cs.2, cs.3
+    );
     let mut sv = state.clone();
     sv.as_object_mut().unwrap().remove("saw_block");
-    let view = json!({"state": sv, "watches": w, "seen": sn, "depths": [depths.0, depths.1, depths.2], "done": done});
+    let view = json!({"state": sv, "watches": w, "seen": sn, "depths": [depths.0, depths.1, depths.2], "done": done,
+        "chain_state": {"current_height": cs.0, "funding_depth": cs.1, "funding_double_spent_depth": cs.2, "closing_depth": cs.3}});
     Obs { coq, view }
 }
 
@@ -517,6 +521,9 @@ impl Driver {
         let node = &self.w.node_ctx.node;
         let depths = (self.mon.funding_depth(), self.mon.funding_double_spent_depth(), self.mon.closing_depth());
         let done = self.mon.is_done();
+        // the view the validators consume
+        let c = self.mon.as_base().as_chain_state();
+        let cs = (c.current_height, c.funding_depth, c.funding_double_spent_depth, c.closing_depth);
         let st = serde_json::to_value(&*self.mon.get_state()).unwrap();
         if self.direct {
             let wv = serde_json::to_value(self.watches.iter().collect::<Vec<_>>()).unwrap();
@@ -525,12 +532,12 @@ impl Driver {
                 // OutPoint's own serde prints "txid:vout" strings
                 v
             };
-            observe(u, &st, &fix(wv), &fix(sv), depths, done, &self.init)
+            observe(u, &st, &fix(wv), &fix(sv), depths, done, cs, &self.init)
         } else {
             let tracker = node.get_tracker();
             let (_, slot) = tracker.listeners.get(&self.w.key).expect("listener");
             let sl = serde_json::to_value(slot).unwrap();
-            observe(u, &st, &sl["watches"], &sl["seen"], depths, done, &self.init)
+            observe(u, &st, &sl["watches"], &sl["seen"], depths, done, cs, &self.init)
         }
     }
 
@@ -794,6 +801,22 @@ fn run_case(sc: &Scenario, u: &Universe, steps: &[Step], direct: bool, forgot: b
         }
         let o = d.obs(u);
         coq_obs.push(o.coq.clone());
+        // the two views of one channel must agree: the ChainState handed to the validators
+        // against the monitor's own getters
+        if admissible && violation.is_none() {
+            let cs = &o.view["chain_state"];
+            let st = &o.view["state"];
+            let d = &o.view["depths"];
+            if cs["current_height"] != st["height"] || cs["funding_depth"] != d[0] || cs["funding_double_spent_depth"] != d[1] || cs["closing_depth"] != d[2] {
+                violation = Some(json!({
+                    "what": "as_chain_state (the chain view handed to the validators) disagrees with the monitor's own height / depth getters",
+                    "step": jsteps.len() - 1,
+                    "chain_state": cs,
+                    "height": st["height"],
+                    "funding_depth": d[0], "funding_double_spent_depth": d[1], "closing_depth": d[2],
+                }));
+            }
+        }
         // the property itself: after a disconnection the view must be the one of a fresh
         // monitor that connected only the surviving chain
         if admissible && matches!(st, Step::Remove(_)) && violation.is_none() {
